@@ -43,11 +43,17 @@ type Chain struct {
 
 var (
 	Handlers = []string{"", "rethrow", "swallow", "replace", "fin", "rethrow+fin", "swallow+fin", "replace+fin", "finret", "finreplace"}
-	Vias     = []string{"call", "new", "apply", "bind", "map", "getter", "jsproxy", "forofnext", "forofbody", "gen", "eval", "promise", "destruct", "spread"}
-	Entries  = []string{"fc", "fcr", "refl", "reflerr", "reflerr1", "method", "ctor", "ctorr", "pxget", "dynget", "getter"}
-	Exits    = []string{"callable", "construct", "expfn", "expfnerr", "get", "tryget", "forofnext", "forofstep", "tryforofnext", "tryforofstep", "run", "rtnew"}
-	Behavs   = []string{"rethrow", "rethrowval", "reterr", "wraperr", "joinerr", "customwrap", "swallow", "swallowall", "replaceval", "replaceerr", "newgoerr"}
-	Drivers  = []string{"run", "callable", "construct", "expfn", "expfnerr", "tryget", "tryforofnext", "tryforofstep", "tryexpfn", "rtnew"}
+	Vias     = []string{"call", "new", "apply", "bind", "map", "getter", "jsproxy", "forofnext", "forofbody", "gen", "eval", "promise", "destruct", "spread",
+		// the next frame runs as the step of a built-in that consumes an iterable with a return() method (Array.from mapFn)
+		"frommap",
+		// the next frame runs INSIDE the iterator's return() method while an ordinary exception (thrown by this frame's own
+		// loop body / mapFn / the consuming built-in) is closing the iterator
+		"closeforof", "closemap", "closefrom", "closedestruct"}
+
+	Entries = []string{"fc", "fcr", "refl", "reflerr", "reflerr1", "method", "ctor", "ctorr", "pxget", "dynget", "getter"}
+	Exits   = []string{"callable", "construct", "expfn", "expfnerr", "get", "tryget", "forofnext", "forofstep", "tryforofnext", "tryforofstep", "run", "rtnew"}
+	Behavs  = []string{"rethrow", "rethrowval", "reterr", "wraperr", "joinerr", "customwrap", "swallow", "swallowall", "replaceval", "replaceerr", "newgoerr"}
+	Drivers = []string{"run", "callable", "construct", "expfn", "expfnerr", "tryget", "tryforofnext", "tryforofstep", "tryexpfn", "rtnew"}
 
 	// payload kinds a script can create (throw / replace)
 	JSKinds = []string{"num", "negzero", "nan", "float", "str", "emptystr", "sym", "null", "undef", "bool", "bigint", "obj", "arr", "fn",
@@ -70,6 +76,11 @@ func in(s string, l []string) bool {
 
 // CanReturnErr: entry conventions whose Go signature has a trailing `error` result.
 func CanReturnErr(e string) bool { return e == "reflerr" || e == "reflerr1" || e == "method" }
+
+// IsCloseVia: links where the rest of the chain runs inside return() during an IteratorClose with a throw completion.
+func IsCloseVia(v string) bool {
+	return v == "closeforof" || v == "closemap" || v == "closefrom" || v == "closedestruct"
+}
 
 // IsWrap: behaviours that return the error they got inside another error (fmt.Errorf("%w"), errors.Join, a custom type with Unwrap).
 func IsWrap(b string) bool { return b == "wraperr" || b == "joinerr" || b == "customwrap" }
